@@ -164,6 +164,16 @@ def tlc_generate(ctx, spec, cfg, timeout=900, simulate=None, limit=None):
 
 
 _RE_REJ = re.compile(r'<<"TRACE_REJECTED_AT", (\d+)>>')
+_RE_BAD = re.compile(r'<<"BAD", (\d+), "([^"]*)">>')
+
+
+class Rej(tuple):
+    """(segment_lines, index_in_segment) plus .reason (monitor rule that failed, if reported)."""
+    def __new__(cls, seg, idx, reason=""):
+        o = super().__new__(cls, (seg, idx))
+        o.reason = reason
+        return o
+
 _RE_OK = re.compile(r'<<"TRACE_OK", (\d+)>>')
 
 
@@ -175,6 +185,12 @@ def tlc_trace(ctx, spec, cfg, trace_path, mode="prop", timeout=900, env=None):
     if env:
         e.update(env)
     rc, out = run(_tlc_cmd(ctx, spec, cfg, 1), env=e, timeout=timeout, cwd=ctx.work)
+    ctx.last_reason = ""
+    b = _RE_BAD.search(out)
+    if b:
+        # the monitor consumed line b and flagged it: that line is the offending one
+        ctx.last_reason = b.group(2)
+        return int(b.group(1))
     if _RE_OK.search(out):
         return None
     m = _RE_REJ.search(out)
@@ -182,6 +198,70 @@ def tlc_trace(ctx, spec, cfg, trace_path, mode="prop", timeout=900, env=None):
         # diameter d = consumed lines + 1  => first unexplained line is d (1-based)
         return int(m.group(1))
     raise ToolError("trace validation of %s with %s failed to run:\n%s" % (trace_path, spec, out[-3000:]))
+
+
+def tlc_trace_all(ctx, spec, cfg, trace_path, mode="prop", timeout=1800, env=None):
+    """Validate a trace whose spec keeps going after a broken rule and prints <<"BAD", line, reason>>
+    for the first broken rule of every execution. Returns (bads, rejected_at) where bads is a list
+    of (line, reason) and rejected_at is None or the first line that could not be consumed at all."""
+    e = {"TRACE": trace_path, "MODE": mode,
+         "JAVA_TOOL_OPTIONS": "-Xss1g -Xmx8g -Dtlc2.tool.queue.IStateQueue=StateDeque"}
+    if env:
+        e.update(env)
+    rc, out = run(_tlc_cmd(ctx, spec, cfg, 1), env=e, timeout=timeout, cwd=ctx.work)
+    bads = [(int(a), b) for a, b in _RE_BAD.findall(out)]
+    if _RE_OK.search(out):
+        return bads, None
+    m = _RE_REJ.search(out)
+    if m:
+        return bads, int(m.group(1))
+    raise ToolError("trace validation of %s with %s failed to run:\n%s" % (trace_path, spec, out[-3000:]))
+
+
+def validate_all(ctx, spec, cfg, lines, mode="prop", tag="a", chunk_lines=150000, env=None,
+                 is_reset=lambda ln: '"e":"reset"' in ln):
+    """One-pass validation for monitor-style trace specs (see tlc_trace_all). Returns
+    (n_segments, n_events, rejects) with rejects = [Rej(segment, idx, reason)]; a line that cannot be
+    consumed at all (malformed trace / impl-mode mismatch) is reported with reason 'unconsumed'."""
+    allsegs = split_segments(lines, is_reset)
+    nseg, nev = len(allsegs), len(lines) - len(allsegs)
+    rejects = []
+    chunks, cur, n = [], [], 0
+    for s in allsegs:
+        cur.append(s)
+        n += len(s)
+        if n >= chunk_lines:
+            chunks.append(cur)
+            cur, n = [], 0
+    if cur:
+        chunks.append(cur)
+    rnd = 0
+    for segs in chunks:
+        while segs:
+            rnd += 1
+            p = ctx.path("%s.%s.%d.ndjson" % (tag, mode, rnd))
+            with open(p, "w") as f:
+                for s in segs:
+                    f.write("\n".join(s) + "\n")
+            bads, rej = tlc_trace_all(ctx, spec, cfg, p, mode=mode, env=env)
+            os.remove(p)
+            starts, acc = [], 0
+            for s in segs:
+                starts.append(acc)
+                acc += len(s)
+            import bisect
+            for ln, reason in bads:
+                i = bisect.bisect_right(starts, ln - 1) - 1
+                rejects.append(Rej(segs[i], ln - starts[i], reason))
+            if rej is None:
+                break
+            i = bisect.bisect_right(starts, rej - 1) - 1
+            rejects.append(Rej(segs[i], rej - starts[i], "unconsumed"))
+            segs = segs[i + 1:]
+            if len(rejects) > 5000:
+                ctx.notes.append("stopped collecting after 5000 rejected segments")
+                return nseg, nev, rejects
+    return nseg, nev, rejects
 
 
 def split_segments(lines, is_reset):
@@ -198,37 +278,48 @@ def split_segments(lines, is_reset):
 
 
 def validate_segments(ctx, spec, cfg, lines, mode="prop", max_rejects=8, tag="t", env=None,
-                      is_reset=lambda ln: '"e":"reset"' in ln):
+                      is_reset=lambda ln: '"e":"reset"' in ln, chunk_lines=150000):
     """Validate a multi-segment trace; a rejected segment is set aside and validation
-    continues with the rest, so every segment gets checked.  Returns
-    (n_segments, n_events, rejects) with rejects = [(segment_lines, offending_index_in_segment)]."""
-    segs = split_segments(lines, is_reset)
-    nseg, nev = len(segs), len(lines) - len(segs)
+    continues with the rest, so every segment gets checked.  Large traces are validated in
+    chunks of about `chunk_lines` lines (one JVM each).  Returns
+    (n_segments, n_events, rejects) with rejects = [Rej(segment_lines, offending_index_in_segment)]."""
+    allsegs = split_segments(lines, is_reset)
+    nseg, nev = len(allsegs), len(lines) - len(allsegs)
     rejects = []
     rnd = 0
-    while segs:
-        rnd += 1
-        p = ctx.path("%s.%s.%d.ndjson" % (tag, mode, rnd))
-        with open(p, "w") as f:
-            for s in segs:
-                f.write("\n".join(s) + "\n")
-        bad = tlc_trace(ctx, spec, cfg, p, mode=mode, env=env)
-        os.remove(p)
-        if bad is None:
-            break
-        # locate the segment containing line `bad`
-        acc = 0
-        for i, s in enumerate(segs):
-            if acc + len(s) >= bad:
-                rejects.append((s, bad - acc))
-                segs = segs[i + 1:]   # everything before was accepted
+    # chunking
+    chunks, cur, n = [], [], 0
+    for s in allsegs:
+        cur.append(s)
+        n += len(s)
+        if n >= chunk_lines:
+            chunks.append(cur)
+            cur, n = [], 0
+    if cur:
+        chunks.append(cur)
+    for segs in chunks:
+        while segs:
+            rnd += 1
+            p = ctx.path("%s.%s.%d.ndjson" % (tag, mode, rnd))
+            with open(p, "w") as f:
+                for s in segs:
+                    f.write("\n".join(s) + "\n")
+            bad = tlc_trace(ctx, spec, cfg, p, mode=mode, env=env)
+            os.remove(p)
+            if bad is None:
                 break
-            acc += len(s)
-        else:
-            raise ToolError("rejected line %d beyond trace" % bad)
-        if len(rejects) >= max_rejects:
-            ctx.notes.append("stopped after %d rejected segments" % max_rejects)
-            break
+            acc = 0
+            for i, s in enumerate(segs):
+                if acc + len(s) >= bad:
+                    rejects.append(Rej(s, bad - acc, getattr(ctx, 'last_reason', '')))
+                    segs = segs[i + 1:]   # everything before was accepted
+                    break
+                acc += len(s)
+            else:
+                raise ToolError("rejected line %d beyond trace" % bad)
+            if len(rejects) >= max_rejects:
+                ctx.notes.append("stopped after %d rejected segments" % max_rejects)
+                return nseg, nev, rejects
     return nseg, nev, rejects
 
 
@@ -295,18 +386,22 @@ def conclude(ctx, level, coverage, violations, assumptions, extra=None):
     """violations: list of dict(sig=..., what=..., replay_obj=...).  Known signatures are
     printed as KNOWN-FINDING, anything else is a VIOLATION.  Writes evidence, returns exit code."""
     known = load_known(ctx.pid)
-    new, seen_known = [], {}
+    new, seen_known, counts = {}, {}, {}
     for v in violations:
-        if v.get("sig") in known:
-            seen_known.setdefault(v["sig"], v)
+        sig = v.get("sig", "v")
+        counts[sig] = counts.get(sig, 0) + 1
+        if sig in known:
+            seen_known.setdefault(sig, v)
         else:
-            new.append(v)
+            new.setdefault(sig, v)
     for sig, v in seen_known.items():
-        log("KNOWN-FINDING: property=%s sig=%s %s" % (ctx.pid, sig, known[sig]))
-    for i, v in enumerate(new[:20]):
-        p = save_replay(ctx, "%s_%d" % (v.get("sig", "v"), i), v.get("replay_obj", v))
+        log("KNOWN-FINDING: property=%s sig=%s (%d executions) %s" % (ctx.pid, sig, counts[sig], known[sig]))
+    for i, (sig, v) in enumerate(list(new.items())[:20]):
+        p = save_replay(ctx, "%s" % re.sub(r"[^A-Za-z0-9_.+-]", "_", sig)[:80], v.get("replay_obj", v))
         log("VIOLATION property=%s replay=%s" % (ctx.pid, p))
+        log("  signature: %s (%d executions)" % (sig, counts[sig]))
         log("  what: %s" % v.get("what", ""))
+    new = list(new.values())
     ev = {
         "property_id": ctx.pid,
         "tier": ctx.tier,
